@@ -57,6 +57,7 @@ def run_thr(c):
     except ValueError:
         return {"rejected": True}
     s = samples(c["logL"], c["logW"])
+    s_before = s.tobytes()
     spy = ArgmaxSpy()
     M.np.argmax = spy
     try:
@@ -77,6 +78,7 @@ def run_thr(c):
                 out["error"] = err(e)
     finally:
         M.np.argmax = spy.real
+    out["input_unchanged"] = bool(s.tobytes() == s_before)
     return out
 
 
